@@ -209,8 +209,10 @@ func (s *APIRegServer) registerBidirectional(w http.ResponseWriter, r *http.Requ
 
 	// Check server's client config -- add server's ClientConf if client is outdated
 	serverClientConf := s.compareClientConfGen(payload.GetRegistrationPayload().GetDecoyListGeneration())
-	if serverClientConf != nil {
-		// Replace the payload generation with correct generation from server's client config
+	if serverClientConf != nil && payload.GetRegistrationPayload() != nil {
+		// Replace the payload generation with correct generation from server's client config. A
+		// request without a registration payload has no generation to replace; it is rejected
+		// with ErrNoC2SBody by the processor below.
 		payload.RegistrationPayload.DecoyListGeneration = serverClientConf.Generation
 	}
 
